@@ -627,6 +627,23 @@ class Expander:
             elif k == "rename_ident":
                 a, b = split_sub(w[1])
                 spec.setdefault("renames", []).append((a, b))
+            elif k == "lift_closure":
+                # lift_closure <name> <anchor regex>  + children: sig <params and return>, requires/ensures blocks.
+                # The closure literal that follows the anchor is lifted, body verbatim, into a named fn next to this one
+                # (so that it can carry a contract) and the literal is replaced by the fn's path.
+                parts = w[1].split(None, 1)
+                lc = {"name": parts[0], "anchor": parts[1].strip(), "sig": None, "requires": [], "ensures": [], "attrs": []}
+                for cc in c["children"]:
+                    w2 = cc["text"].split(None, 1)
+                    if w2[0] == "sig":
+                        lc["sig"] = w2[1]
+                    elif w2[0] == "attr":
+                        lc["attrs"].append(w2[1])
+                    elif w2[0] in ("requires", "ensures"):
+                        lc[w2[0]] += clause_lines(cc)
+                    elif w2[0] == "head":
+                        lc["head"] = raw_block(cc)
+                spec.setdefault("lifts", []).append(lc)
             elif k == "loop":
                 n = int(w[1])
                 d = spec["loops"].setdefault(n, {})
@@ -741,6 +758,45 @@ class Expander:
                         ncl += len(spec["loops"][n][kwd])
                 pos = cut
         self.emit_repo(rel, src, pos, it.end)
+        for lc in spec.get("lifts", []):
+            done = False
+            for si in range(body_seg0, len(self.out.segs)):
+                sg = self.out.segs[si]
+                if sg.origin[0] != "repo":
+                    continue
+                m = re.search(lc["anchor"], sg.text)
+                if not m:
+                    continue
+                t = sg.text
+                a0 = m.end()
+                while a0 < len(t) and t[a0].isspace():
+                    a0 += 1
+                if a0 >= len(t) or t[a0] != "|":
+                    raise LostAnchor("%s: no closure literal after /%s/ in %s" % (rel, lc["anchor"], fnid))
+                p1 = t.index("|", a0 + 1)
+                b0 = p1 + 1
+                while t[b0].isspace():
+                    b0 += 1
+                if t[b0] != "{":
+                    raise LostAnchor("%s: closure after /%s/ in %s has no block body" % (rel, lc["anchor"], fnid))
+                toks2 = rlex.code_toks(rlex.lex(t[b0:]))
+                if toks2[0].text != "{":
+                    raise LostAnchor("%s: closure body lexing failed in %s" % (rel, fnid))
+                b1 = b0 + toks2[rlex.match_close(toks2, 0)].end
+                base = sg.origin[2]
+                path = ("Self::" if container else "") + lc["name"]
+                lifted_id = "%s::%s" % (fnid, lc["name"])
+                # (the path is appended to the preceding segment so that later body rewrites can match across it)
+                newsegs = [Seg(t[:a0] + path, ("repo", rel, base)), Seg(t[b1:], ("repo", rel, base + b1))]
+                self.out.segs[si:si + 1] = [x for x in newsegs if x.text]
+                # the lifted fn goes after the outer fn
+                self._pending_lifts = getattr(self, "_pending_lifts", [])
+                self._pending_lifts.append((lc, lifted_id, rel, t[b0:b1], base + b0, src.count("\n", 0, base + a0) + 1))
+                self.rewrites.append("%s: closure `%s` in %s lifted (body verbatim) to fn %s so that it can carry a contract" % (rel, t[a0:p1 + 1], fnid, lc["name"]))
+                done = True
+                break
+            if not done:
+                raise LostAnchor("%s: lift_closure anchor /%s/ not found in %s" % (rel, lc["anchor"], fnid))
         if spec["bodysubs"]:
             for a, b, optional in spec["bodysubs"]:
                 hit = 0
@@ -805,6 +861,22 @@ class Expander:
             self.rewrites.append("%s: identifier `%s` alpha-renamed to `%s` in %s (%d occurrences; Verus cannot take a parameter named like its function)" % (rel, a, b, fnid, n))
         self.out.add("\n\n", ("tmpl", fnid))
         self.fns.append({"id": fnid, "file": rel, "line": line, "body": True, "requires": len(spec["requires"]), "ensures": len(spec["ensures"]), "clauses": ncl, "loops": len(loops)})
+        for lc, lifted_id, lrel, body, boff, lline in getattr(self, "_pending_lifts", []):
+            for a in lc["attrs"]:
+                self.out.add("    " + a + "\n", ("tmpl", lifted_id, "attr"))
+            self.out.add("    fn %s%s" % (lc["name"], lc["sig"]), ("tmpl", lifted_id, "sig"))
+            self.emit_contract("requires", lc["requires"], lifted_id)
+            self.emit_contract("ensures", lc["ensures"], lifted_id)
+            self.out.add("{ ", ("tmpl", lifted_id))
+            if self.vac:
+                self.out.add("proof { assert(false); } ", ("vac", lifted_id))
+                self.vac_sites.append(lifted_id)
+            if lc.get("head"):
+                self.out.add(lc["head"] + "\n", ("tmpl", lifted_id, "head"))
+            self.out.add(body, ("repo", lrel, boff))
+            self.out.add(" }\n\n", ("tmpl", lifted_id))
+            self.fns.append({"id": lifted_id, "file": lrel, "line": lline, "body": True, "requires": len(lc["requires"]), "ensures": len(lc["ensures"]), "clauses": len(lc["requires"]) + len(lc["ensures"]), "loops": 0})
+        self._pending_lifts = []
 
     def do_container(self, rel, src, items, node):
         words = node["text"].split(None, 1)
